@@ -86,3 +86,22 @@ pub fn selftest() -> Result<u64, String> {
     for &x in &samples { if x.is_finite() && mean_like_impl(&[x]) != x { return Err(format!("FL-mean1 fails for {x:e}")); } }
     Ok(n)
 }
+
+/// Stall detector: a thread that sleeps 100 ms at a time and counts every time such a sleep took more than two seconds
+/// of monotonic or of wall-clock time - the machine (or the whole sandbox: a snapshot of the VM freezes every process
+/// for tens of seconds) did not run this process.  Timing-sensitive cases that overlap a stall are run again.
+static STALLS: std::sync::atomic::AtomicU64 = std::sync::atomic::AtomicU64::new(0);
+static STALL_WATCH: std::sync::Once = std::sync::Once::new();
+pub fn stall_epoch() -> u64 {
+    STALL_WATCH.call_once(|| {
+        std::thread::spawn(|| loop {
+            let (t, w) = (std::time::Instant::now(), std::time::SystemTime::now());
+            std::thread::sleep(std::time::Duration::from_millis(100));
+            let wall = w.elapsed().unwrap_or(std::time::Duration::from_secs(3600));
+            if t.elapsed() > std::time::Duration::from_secs(2) || wall > std::time::Duration::from_secs(2) {
+                STALLS.fetch_add(1, std::sync::atomic::Ordering::SeqCst);
+            }
+        });
+    });
+    STALLS.load(std::sync::atomic::Ordering::SeqCst)
+}
